@@ -1,6 +1,7 @@
 package props
 
 import (
+	"bytes"
 	"crypto/sha256"
 	"encoding/hex"
 	"encoding/json"
@@ -30,7 +31,12 @@ type lockCfg struct {
 	Sigflag  string // "" | SIG_INPUTS | SIG_ALL
 	Nonce    string
 	TagOrder int64 // != 0: the tags are written in a permuted order (the meaning does not depend on it)
+	// Spelling != 0: the same JSON value written differently (white space around and inside,
+	// escaped characters); every JSON parser reads the same secret, so it is the same lock
+	Spelling int
 }
+
+const nSpellings = 6
 
 func (c lockCfg) Secret() string {
 	tags := [][]string{}
@@ -53,7 +59,32 @@ func (c lockCfg) Secret() string {
 		rand.New(rand.NewSource(c.TagOrder)).Shuffle(len(tags), func(i, j int) { tags[i], tags[j] = tags[j], tags[i] })
 	}
 	d, _ := json.Marshal(map[string]any{"nonce": c.Nonce, "data": c.Data, "tags": tags})
-	return fmt.Sprintf(`["%s",%s]`, c.Kind, d)
+	canonical := fmt.Sprintf(`["%s",%s]`, c.Kind, d)
+	switch c.Spelling % nSpellings {
+	case 1:
+		return " " + canonical
+	case 2:
+		return "\n\t " + canonical
+	case 3:
+		return canonical + " \n"
+	case 4:
+		var buf bytes.Buffer
+		if json.Indent(&buf, []byte(canonical), "", " ") == nil {
+			return buf.String()
+		}
+	case 5:
+		// the kind with escaped characters: "\u0050\u0032PK" is the string P2PK
+		esc := ""
+		for i, ch := range c.Kind {
+			if i < 2 {
+				esc += fmt.Sprintf("\\u%04x", ch)
+			} else {
+				esc += string(ch)
+			}
+		}
+		return fmt.Sprintf(`["%s",%s]`, esc, d)
+	}
+	return canonical
 }
 
 func (c lockCfg) Desc() string {
@@ -155,7 +186,12 @@ func authorisedOutput(c lockCfg, B_hex, witness string) bool {
 	if err != nil {
 		return false
 	}
+	// a key lock needs one signature when no threshold is set; a hash lock needs signatures
+	// only "when a signature threshold is set" (C13), for outputs as for inputs
 	need := 1
+	if c.Kind == "HTLC" {
+		need = 0
+	}
 	if c.NSigs > 0 {
 		need = c.NSigs
 	}
